@@ -14,7 +14,7 @@ Where the code deviates from the statement the full statement is refuted (`_full
 witness replayed on the real engine by props/C07.py) and the provable restriction is `_partial`.
 -/
 import Mistral.Model.WithItems
-import Mistral.Lemmas.WithItems
+import Mistral.Lemmas.WithItemsEval
 
 namespace Mistral.Props.C07
 open Mistral.WithItems
@@ -467,5 +467,207 @@ theorem rerun_reset_restarts_all (n : Nat) (c : Option Nat) (ops : List Op) (hop
 example : rerunStarted (run (init 3 (some 2) 0)
     [.start, .result 0 .error, .result 1 .success, .handled, .handled, .result 2 .success, .handled]) true
     = [0, 1] := by decide
+
+/-! ## evaluation of the items, of the per-item input and of `concurrency`
+
+`run` / `step` above are the histories in which every evaluation succeeds: `runE {} = run`
+(`eval_clean_is_run`).  `runE e` / `stepE e` (Model/WithItems.lean, `EvalSpec`) are ALL histories:
+`e.itemsOk` (the `with-items` expression yields iterables of one length), `e.concOk` (`concurrency`
+is a non-negative integer), `e.badInputs` (item indexes whose action input fails to evaluate).
+The theorems below quantify over every `e`, item count, concurrency, retry count, operation
+sequence. -/
+
+/-- the theorems above are about the evaluation-clean histories of the full model -/
+theorem eval_clean_is_run (s : WI) (ops : List Op) : runE {} s ops = run s ops := runE_clean s ops
+
+/-- "starts exactly one action … per item index", failure side: a scheduling round (of the start,
+    a completion job, a rerun or a retry transaction) in which the input of some item of the
+    portion fails to evaluate schedules NO action of that round — the inputs of the whole portion
+    are evaluated before the first action is scheduled — and the task becomes ERROR; the RUNNING
+    children and pending completions it had before are untouched, none is added -/
+theorem input_failure_starts_nothing (e : EvalSpec) (s : WI) (hi : e.itemsOk = true)
+    (hf : inputFails e (prepare s) = true) :
+    (scheduleEval e s).items = s.items ∧ (scheduleEval e s).tstate = .error ∧
+      running (scheduleEval e s) = running s ∧ (scheduleEval e s).unhandled = s.unhandled :=
+  scheduleEval_input_failure e s hi hf
+
+/-- … in particular in the start transaction: nothing is started at all -/
+theorem input_failure_at_start_starts_nothing (e : EvalSpec) (n : Nat) (c : Option Nat) (r : Nat)
+    (hi : e.itemsOk = true) (hc : e.concOk = true)
+    (hf : inputFails e (prepare { init n c r with tstate := .running, concurrency := policyConc c }) = true) :
+    (stepE e (init n c r) .start).items = [] ∧ (stepE e (init n c r) .start).tstate = .error := by
+  have h := scheduleEval_input_failure e { init n c r with tstate := .running, concurrency := policyConc c } hi hf
+  simp only [stepE, init, hc] at h ⊢
+  exact ⟨h.1, h.2.1⟩
+
+-- non-vacuity: 4 items, the input of item 2 fails: no limit → nothing starts; limit 2 → items 0, 1
+-- start (their inputs are the portion), the failure comes in the round that reaches item 2
+example : (stepE { badInputs := [2] } (init 4 none 0) .start).items = [] ∧
+    (stepE { badInputs := [2] } (init 4 none 0) .start).tstate = .error ∧
+    (stepE { badInputs := [2] } (init 4 (some 2) 0) .start).items.length = 2 ∧
+    (runE { badInputs := [2] } (init 4 (some 2) 0) [.start, .result 0 .success, .result 1 .success, .handled]).tstate = .error ∧
+    (runE { badInputs := [2] } (init 4 (some 2) 0) [.start, .result 0 .success, .result 1 .success, .handled]).items.length = 2 := by
+  decide
+
+/-- a transaction that creates action executions never completes their task: whenever an operation
+    adds executions, the task is not completed at the end of that transaction (this is what the
+    lazily-evaluating variant of `_schedule_actions` breaks: it starts items 0..k-1 and fails the
+    task in the same transaction) -/
+theorem created_only_while_task_open (e : EvalSpec) (s : WI) (op : Op)
+    (h : s.items.length < (stepE e s op).items.length) : (stepE e s op).tstate.completed = false :=
+  stepE_created_not_completed e s op h
+
+/-- no action execution is created for a task that is already completed — in every state of every
+    history, for every operation other than an explicit rerun -/
+theorem completed_task_has_no_running_child_started_later (e : EvalSpec) (n : Nat) (c : Option Nat) (r : Nat)
+    (ops : List Op) (op : Op) (hc : (runE e (init n c r) ops).tstate.completed = true)
+    (hop : ∀ reset, op ≠ .rerun reset) :
+    (stepE e (runE e (init n c r) ops) op).items.length = (runE e (init n c r) ops).items.length :=
+  stepE_completed_creates_nothing e _ op hc hop
+
+example : (runE { badInputs := [0] } (init 2 none 0) [.start]).tstate.completed = true := by decide
+
+/-- unequal item lists / a non-iterable value / a failing items expression (`itemsOk = false`), or
+    an ill-typed `concurrency` (`concOk = false`): a declared error, the task is ERROR after the start
+    transaction, not even the runtime context is prepared, and NOTHING is ever started — by no
+    operation sequence, reruns included -/
+theorem unevaluable_items_start_nothing (e : EvalSpec) (he : e.itemsOk = false ∨ e.concOk = false)
+    (n : Nat) (c : Option Nat) (r : Nat) (ops : List Op) :
+    (runE e (init n c r) ops).items = [] ∧ (runE e (init n c r) ops).unhandled = 0 ∧
+      ((runE e (init n c r) ops).tstate = .idle ∨ (runE e (init n c r) ops).tstate = .error) :=
+  dead_runE e he (dead_init n c r) ops
+
+theorem unequal_lists_fail_at_start (e : EvalSpec) (he : e.itemsOk = false ∨ e.concOk = false)
+    (n : Nat) (c : Option Nat) (r : Nat) :
+    (stepE e (init n c r) .start).tstate = .error ∧ (stepE e (init n c r) .start).items = [] ∧
+      (stepE e (init n c r) .start).prepared = false := by
+  rcases he with h | h
+  · by_cases hc : e.concOk = true
+    · simp [stepE, init, hc, scheduleEval, h, failTask]
+    · simp [stepE, init, hc, failTask]
+  · simp [stepE, init, h, failTask]
+
+example : (runE { itemsOk := false } (init 3 (some 2) 1) [.start, .rerun true, .handled]).items = [] := by decide
+
+/-- "starts exactly one action per item index" for ALL failure tables: no index ever has two
+    accepted-or-RUNNING executions, and no execution is created for an index ≥ n -/
+theorem index_started_once_all_tables (e : EvalSpec) (n : Nat) (c : Option Nat) (r : Nat) (ops : List Op) (i : Nat) :
+    liveCount (runE e (init n c r) ops) i ≤ 1 :=
+  (liveInv_runE e (liveInv_init n c r) ops).uniq i
+
+theorem index_in_range_all_tables (e : EvalSpec) (n : Nat) (c : Option Nat) (r : Nat) (ops : List Op) :
+    ∀ it ∈ (runE e (init n c r) ops).items, it.index < n := by
+  intro it hit
+  obtain ⟨m, hm, hlt, _⟩ := (liveInv_runE e (liveInv_init n c r) ops).front
+  have h1 := hlt it.index (List.mem_map.mpr ⟨it, hit, rfl⟩)
+  have h2 : (runE e (init n c r) ops).specCount = n := by
+    have : ∀ (s : WI) (ops : List Op), (runE e s ops).specCount = s.specCount := by
+      intro s ops
+      induction ops generalizing s with
+      | nil => rfl
+      | cons o os ih =>
+        show (runE e (stepE e s o) os).specCount = s.specCount
+        rw [ih]
+        cases o <;> simp only [stepE]
+        · split
+          · split
+            · rfl
+            · unfold scheduleEval; split
+              · rfl
+              · split
+                · simp [failTask, prepare]; split <;> rfl
+                · exact (scheduleActions_spec _).1
+          · rfl
+        · exact (step_spec s _).1
+        · split
+          · rfl
+          · unfold onActionCompleteE; split
+            · rfl
+            · have g : (increaseCapacity { s with unhandled := s.unhandled - 1 }).specCount = s.specCount :=
+                (increaseCapacity_fields _).2.2.2.2.1
+              simp only []
+              split
+              · rw [(complete_fields _ _).2.2.2.2.2.2.1]; exact g
+              · split
+                · unfold scheduleEval; split
+                  · exact g
+                  · split
+                    · simp only [failTask]; unfold prepare; split <;> exact g
+                    · rw [(scheduleActions_spec _).1]; exact g
+                · exact g
+        · split
+          · split
+            · rfl
+            · unfold scheduleEval; split
+              · rfl
+              · split
+                · simp only [failTask]; unfold prepare; split <;> rfl
+                · exact (scheduleActions_spec _).1
+          · rfl
+        · split
+          · unfold scheduleEval; split
+            · rfl
+            · split
+              · simp only [failTask]; unfold prepare; split <;> rfl
+              · exact (scheduleActions_spec _).1
+          · rfl
+    rw [this]; rfl
+  omega
+
+/-- "never has more than the configured concurrency running at once" at full strength over the
+    failure tables is FALSE of the code: with limit 2 and items 0..3 whose last input fails, the
+    round that reaches item 3 (a completion job) fails the task while item 2 is still RUNNING; the
+    rerun with reset then starts two more next to it: 3 RUNNING.  Replayed on the real engine
+    (corpus/C07; known finding `running-exceeds-concurrency / rerun-after-late-input-failure`). -/
+theorem running_le_concurrency_all_tables_full_fails :
+    ¬ (∀ (e : EvalSpec) (n k r : Nat) (ops : List Op), running (runE e (init n (some (k + 1)) r) ops) ≤ k + 1) := by
+  intro h
+  have := h { badInputs := [3] } 4 1 0
+    [.start, .result 0 .success, .handled, .result 1 .success, .handled, .rerun true]
+  revert this
+  decide
+
+/-- it holds when no item input fails (whatever happens to the items expression and `concurrency`) -/
+theorem running_le_concurrency_all_tables_partial (e : EvalSpec) (hb : e.badInputs = []) (n k r : Nat)
+    (ops : List Op) : running (runE e (init n (some (k + 1)) r) ops) ≤ k + 1 := by
+  by_cases h1 : e.itemsOk = true
+  · by_cases h2 : e.concOk = true
+    · rw [evalSpec_clean_eq e h1 h2 hb, runE_clean]
+      exact running_le_concurrency n k r ops
+    · have := (dead_runE e (Or.inr (by simpa using h2)) (dead_init n (some (k + 1)) r) ops).1
+      simp [running, this]
+  · have := (dead_runE e (Or.inl (by simpa using h1)) (dead_init n (some (k + 1)) r) ops).1
+    simp [running, this]
+
+/-- "completes only after every item has completed", failure side, at full strength: FALSE of the
+    code — an item input that fails in a LATER concurrency round fails the task while siblings are
+    RUNNING (known finding `task-completed-before-all-items / input-evaluation-failed-in-later-round`) -/
+theorem error_task_has_no_running_child_full_fails :
+    ¬ (∀ (e : EvalSpec) (n : Nat) (c : Option Nat) (r : Nat) (ops : List Op),
+        (runE e (init n c r) ops).tstate = .error → running (runE e (init n c r) ops) = 0) := by
+  intro h
+  have := h { badInputs := [3] } 4 (some 2) 0
+    [.start, .result 0 .success, .handled, .result 1 .success, .handled]
+  revert this
+  decide
+
+/-- it holds (under a limit) when no item input fails: an ERROR task has no RUNNING child and no
+    unhandled completion -/
+theorem error_task_has_no_running_child_partial (e : EvalSpec) (hb : e.badInputs = []) (n k r : Nat)
+    (ops : List Op) (herr : (runE e (init n (some (k + 1)) r) ops).tstate = .error) :
+    running (runE e (init n (some (k + 1)) r) ops) = 0 := by
+  by_cases h1 : e.itemsOk = true
+  · by_cases h2 : e.concOk = true
+    · rw [evalSpec_clean_eq e h1 h2 hb, runE_clean] at herr ⊢
+      have hi := cap_inv_reachable n (some (k + 1)) r ops
+      have hconc := (hi.conc (by rw [herr]; simp)).1
+      rw [(run_spec _ ops).2] at hconc
+      have hp : policyConc (init n (some (k + 1)) r).specConc = some (k + 1) := by simp [init, policyConc, truthy]
+      obtain ⟨_, cap, _, _, _, hz⟩ := hi.lim (k + 1) (by rw [hconc, hp])
+      exact (hz (Or.inr (Or.inr herr))).1
+    · have := (dead_runE e (Or.inr (by simpa using h2)) (dead_init n (some (k + 1)) r) ops).1
+      simp [running, this]
+  · have := (dead_runE e (Or.inl (by simpa using h1)) (dead_init n (some (k + 1)) r) ops).1
+    simp [running, this]
 
 end Mistral.Props.C07
